@@ -89,3 +89,17 @@ for m, q, f in ctx.repo.functions():
         out['%s.%s' % (m.name, q)] = d
 json.dump(out, open(callsigs.SCRATCH_REF, 'w'), indent=0, sort_keys=True)
 print(sum(len(v) for v in out.values()), 'fixed-size scratch buffers in', len(out), 'functions')
+# effective guard conditions and reach conditions of call statements (boolean formulas)
+out, out2 = {}, {}
+for m, q, f in ctx.repo.functions():
+    if m.name in ('cencoding', 'speedups'):
+        continue
+    d = callsigs.guard_effective(f)
+    if d:
+        out['%s.%s' % (m.name, q)] = d
+    d = callsigs.call_stmt_reach(f)
+    if d:
+        out2['%s.%s' % (m.name, q)] = d
+json.dump(out, open(callsigs.GUARDEFF_REF, 'w'), indent=0, sort_keys=True)
+json.dump(out2, open(callsigs.STMTREACH_REF, 'w'), indent=0, sort_keys=True)
+print(sum(len(v) for v in out.values()), 'effective guards,', sum(len(v) for v in out2.values()), 'reach conditions')
